@@ -61,9 +61,23 @@ def map_histories(rng, tier):
     return hs
 
 
-def scenarios(dumps, tier, rng=None):
+QUICK_SYS = ("xlat-linux-ia32", "xlat-linux-ia32-pae", "xlat-linux-ppc64-64k", "xlat-linux-aarch64-5.8-va48",
+             "xlat-linux-aarch64-5.16-64k", "xlat-linux-arm-2.6.24", "xlat-linux-riscv-6.5-sv39",
+             "xlat-linux-s390x-3l", "xlat-linux-x86_64-2.6.31", "xlat-linux-x86_64-5l", "xlat-xen-ia32",
+             "xlat-xen-ia32-pae", "xlat-xen-x86_64-4.3")
+
+
+def scenarios(dumps, tier, rng=None, syscfg=None):
     """(name, format, case line with @N, expect-clean-window)"""
     sc = [("new", "-", "new @N")]
+    # addrxlat_sys_os_init for every architecture / OS the test suite describes (pure libaddrxlat,
+    # memory image and symbols from tests/xlat-*), and a few option-only set-ups without any data
+    for nm, path in sorted((syscfg or {}).items()):
+        if tier == "thorough" or nm in QUICK_SYS:
+            sc.append(("wb_sys_os", nm.replace("xlat-", ""), "wb_sys_os @N @" + path))
+    for o in ("arch=ppc64,ostype=linux,page_shift=16", "arch=x86_64,virt_bits=48", "arch=s390x,ostype=linux",
+              "arch=aarch64,page_shift=12,virt_bits=48", "arch=x86_64,ostype=xen,osver=0x040003"):
+        sc.append(("wb_sys_os", "nodata", "wb_sys_os @N " + o))
     if rng is not None:
         sc += [("wb_map_seq", "-", "wb_map_seq @N " + h) for h in map_histories(rng, tier)]
     for fmt, path in sorted(dumps.items()):
@@ -79,7 +93,10 @@ def scenarios(dumps, tier, rng=None):
             ("attrs", fmt, "attrs @N %s" % path),
             ("free", fmt, "free @N %s" % path),
             ("readstr", fmt, "readstr @N %s MACHPHYSADDR 0x1000" % path),
+            ("getxlat", fmt, "getxlat @N %s linux %s" % (path, ROOT)),
         ]
+        if fmt == "diskdump-ia32":
+            sc.append(("getxlat", fmt, "getxlat @N %s xen %s" % (path, ROOT)))
         if tier == "thorough":
             sc += [
                 ("read", fmt, "read @N %s MACHPHYSADDR 0xff0 8192" % path),
@@ -161,6 +178,9 @@ def symptoms(kv):
     return s
 
 
+BACKGROUND_LEAK = {}
+
+
 def check(run):
     known_fragment(run)
     run.trusted += [
@@ -173,6 +193,8 @@ def check(run):
     run.assumptions += [
         "a realloc that does not grow the block and whose failure the caller ignores is not an "
         "allocation made on behalf of the call (lkcd.c realloc_pfn_offs shrink): accepted as 'shrink-tolerated'",
+        "a failed growth of the error-message buffer (errmsg.h err_vadd) degrades the message (C16) and is "
+        "not required to fail a call whose error the library discards",
         "the check runs against a tree that has hooks/01-lock-events.patch applied",
     ]
     run.check_coq()
@@ -201,7 +223,18 @@ def check(run):
                           rp["replay"].get("model"))], out)
         return
 
-    scs = scenarios(dumps, run.tier, run.rng)
+    try:
+        from .. import xlatcfg
+        syscfg = xlatcfg.scenario_files(os.path.join(run.work, "syscfg"))
+    except Exception as e:                       # noqa
+        run.violation("machinery", "cannot prepare the OS set-up scenarios: %s" % e, {}, found_input=False)
+        return
+    # dumps of other architectures (their Linux layouts have a direct map in a map that is
+    # created by the same set-up: ia32; s390x has a layout of its own)
+    d = os.path.join(run.work, "dumps")
+    dumps["diskdump-ia32"] = resdumps.diskdump(d, "ddia32", arch="ia32")
+    dumps["diskdump-s390x"] = resdumps.diskdump(d, "dds390x", arch="s390x")
+    scs = scenarios(dumps, run.tier, run.rng, syscfg)
     base_lines = [(c + " ").replace(" @N ", " 0 ", 1).strip() for _, _, c in scs]
     base, _ = core.run_impl_lines(exe, run.work, base_lines, timeout=600)
     cases = []
@@ -219,7 +252,12 @@ def check(run):
             if kv.get("leak", "-") not in ("-", "?"):
                 kv["leak"] = "+".join(sorted({nm.get(p.split("*")[0], p) for p in kv["leak"].split(",")}))
             report(run, exe, name, fmt, (c + " ").replace(" @N ", " 0 ", 1).strip(), kv, symptoms(kv) + [x for x in sy if x.startswith("baseline")], None, None)
-            continue
+            # a leak that happens without any failure is background for this scenario (it is
+            # reported once, above): the enumeration goes on and reports what the failure adds
+            if all(x.startswith("leak:") for x in sy) and kv.get("nalloc", "?").isdigit():
+                BACKGROUND_LEAK[(c + " ").replace(" @N ", " @ ", 1).strip()] = set(kv["leak"].split("+"))
+            else:
+                continue
         k = int(kv.get("nalloc", "0"))
         msc = model_scenario(name, (c + " ").replace(" @N ", " 0 ", 1).split(), kv.get("shape", ""))
         for n in range(0, k + 1):
@@ -258,8 +296,17 @@ def judge(run, exe, cases, out):
         caller = names.get(f[1], f[1]) if len(f) > 1 and f[1] not in ("0", "") else "-"
         lk = kv.get("leak", "-")
         if lk not in ("-", "?"):
-            kv["leak"] = "+".join(sorted({names.get(p.split("*")[0], p) for p in lk.split(",")}))
+            w = line.split()
+            bg = BACKGROUND_LEAK.get(" ".join(w[:1] + ["@"] + w[2:]), set())
+            left = sorted({names.get(p.split("*")[0], p) for p in lk.split(",")} - bg)
+            kv["leak"] = "+".join(left) if left else "-"
         sy = symptoms(kv)
+        # growing the error-message buffer is allowed to fail: errmsg.h falls back to the fixed
+        # buffer (C16: the message degrades); when the error being formatted is one the library
+        # discards anyway, the call legitimately succeeds
+        if site == "errmsg.h:err_vadd" and kv.get("res", "").startswith("missed:"):
+            sy = [x for x in sy if not x.startswith("unreported:")]
+            run.count("outcome-errbuf-degraded")
         if name == "new":       # the only lock is the one of the shared object made by the call
             kv["ev"] = kv.get("ev", "-").replace(":lock0", ":shared")
         cev, sev = oomlib.canon_events(kv, names)
